@@ -448,6 +448,22 @@ func (g *gen) memOff(a *asm) {
 	}
 }
 
+// dataOff pushes a source offset for the *COPY family: mostly small, sometimes just below 2^64 (so that
+// offset+length wraps in 64-bit arithmetic while each operand fits), sometimes a boundary constant or an expression.
+func (g *gen) dataOff(a *asm) {
+	r := g.r
+	switch p := r.Intn(100); {
+	case p < 45:
+		a.pushU(pick(r, 0, 0, 1, 31, 32, 33, 64))
+	case p < 70:
+		a.pushU(^uint64(0) - pick(r, 0, 1, 15, 16, 31, 32, 47, 63, 64, 99))
+	case p < 85:
+		a.pushBytes(hexBytes(interesting[6+r.Intn(len(interesting)-6)]))
+	default:
+		g.expr(a, 1)
+	}
+}
+
 func (g *gen) memSize(a *asm) {
 	r := g.r
 	switch p := r.Intn(100); {
@@ -589,8 +605,13 @@ func (g *gen) useFlag(a *asm, d int) {
 		a.pushBytes(s[:])
 		a.op(evm.SSTORE)
 	default: // copy the return data, then drop the flag
-		a.op(evm.RETURNDATASIZE)
-		a.pushU(0)
+		if r.Chance(0.6) {
+			a.op(evm.RETURNDATASIZE)
+			a.pushU(0)
+		} else {
+			g.memSize(a)
+			g.dataOff(a)
+		}
 		a.pushU(uint64(r.Intn(3) * 32))
 		a.op(evm.RETURNDATACOPY, evm.POP)
 	}
@@ -733,17 +754,17 @@ func (g *gen) stmt(a *asm, d int) {
 		switch r.Intn(4) {
 		case 0:
 			g.memSize(a)
-			g.expr(a, 1)
+			g.dataOff(a)
 			g.memOff(a)
 			a.op(evm.CALLDATACOPY)
 		case 1:
 			g.memSize(a)
-			g.expr(a, 1)
+			g.dataOff(a)
 			g.memOff(a)
 			a.op(evm.CODECOPY)
 		case 2:
 			g.memSize(a)
-			g.expr(a, 1)
+			g.dataOff(a)
 			g.memOff(a)
 			g.addrExpr(a)
 			a.op(evm.EXTCODECOPY)
@@ -753,7 +774,11 @@ func (g *gen) stmt(a *asm, d int) {
 			} else {
 				g.memSize(a)
 			}
-			a.pushU(uint64(r.Intn(2)))
+			if r.Bool() {
+				a.pushU(uint64(r.Intn(2)))
+			} else {
+				g.dataOff(a)
+			}
 			g.memOff(a)
 			a.op(evm.RETURNDATACOPY)
 		}
